@@ -1,0 +1,7 @@
+//go:build !verif
+
+package cluster
+
+import "time"
+
+func wallNow() time.Time { return time.Now() }
